@@ -14,17 +14,17 @@
 EXTENDS JsonSpec, TLC
 
 CONSTANTS NumLen, StructLen
-VARIABLES mode, s
+VARIABLES mode, w
 
 NumAlpha == {45, 48, 49, 50, 46, 101, 69, 43}
 StructAlpha == {91, 93, 123, 125, 44, 58, 49, 34, 32}
 Strings(A, n) == UNION {[1..k -> A] : k \in 0..n}
 
-Init == mode = "start" /\ s = <<>>
+Init == mode = "start" /\ w = <<>>
 Next == /\ mode = "start"
-        /\ \/ (mode' = "num" /\ s' \in Strings(NumAlpha, NumLen))
-           \/ (mode' = "struct" /\ s' \in Strings(StructAlpha, StructLen))
-           \/ (mode' = "misc" /\ s' = <<>>)
+        /\ \/ (mode' = "num" /\ w' \in Strings(NumAlpha, NumLen))
+           \/ (mode' = "struct" /\ w' \in Strings(StructAlpha, StructLen))
+           \/ (mode' = "misc" /\ w' = <<>>)
 
 (* ---------------------------------------------------- declarative numbers *)
 AllDigits(x) == \A k \in 1..Len(x) : x[k] >= 48 /\ x[k] <= 57
@@ -37,7 +37,7 @@ IsNumber(x) ==
   LET b == IF x # <<>> /\ x[1] = 45 THEN Tail(x) ELSE x IN
   \E a \in 1..Len(b) : \E c \in a..Len(b) :
      IsIntPart(SubSeq(b, 1, a)) /\ IsFracPart(SubSeq(b, a + 1, c)) /\ IsExpPart(SubSeq(b, c + 1, Len(b)))
-NumOK == ParseDoc(s).ok = IsNumber(s)
+NumOK == ParseDoc(w).ok = IsNumber(w)
 
 (* -------------------------------------------------- declarative structure *)
 RECURSIVE TrimL(_), TrimR(_)
@@ -48,7 +48,7 @@ IsStrTok(x) == Len(x) >= 2 /\ x[1] = 34 /\ x[Len(x)] = 34 /\ \A k \in 2..(Len(x)
 RECURSIVE InVal(_), InElemList(_), InMembers(_)
 InMember(m) == \E k \in 1..Len(m) : m[k] = 58 /\ IsStrTok(TrimS(SubSeq(m, 1, k - 1))) /\ InVal(TrimS(SubSeq(m, k + 1, Len(m))))
 InVal(x) ==              \* x is trimmed
-  \/ x = <<49>>
+  \/ (x # <<>> /\ \A k \in 1..Len(x) : x[k] = 49)          \* 1, 11, 111, ...
   \/ IsStrTok(x)
   \/ /\ Len(x) >= 2 /\ x[1] = 91 /\ x[Len(x)] = 93
      /\ LET t == SubSeq(x, 2, Len(x) - 1) IN TrimS(t) = <<>> \/ InElemList(t)
@@ -58,7 +58,7 @@ InElemList(t) == \/ InVal(TrimS(t))
                  \/ \E k \in 1..Len(t) : t[k] = 44 /\ InVal(TrimS(SubSeq(t, 1, k - 1))) /\ InElemList(SubSeq(t, k + 1, Len(t)))
 InMembers(t) == \/ InMember(t)
                 \/ \E k \in 1..Len(t) : t[k] = 44 /\ InMember(SubSeq(t, 1, k - 1)) /\ InMembers(SubSeq(t, k + 1, Len(t)))
-StructOK == ParseDoc(s).ok = InVal(TrimS(s))
+StructOK == ParseDoc(w).ok = InVal(TrimS(w))
 
 (* ------------------------------------------------------------------ anchors *)
 P(x) == ParseDoc(x)
